@@ -33,6 +33,7 @@ int c01_os_abstract(const JanetAbstractType *t, void *p, c01_edge_fn fn, void *u
 int c01_fw_abstract(const JanetAbstractType *t, void *p, c01_edge_fn fn, void *u);
 int c01_ffi_abstract(const JanetAbstractType *t, void *p, c01_edge_fn fn, void *u);
 int c01_fw_fiber_state(JanetFiber *f, c01_edge_fn fn, void *u);
+const uint8_t *c01_sym_deleted(void);                              /* w_symcache.c: the tombstone sentinel */
 
 /* ------------------------------------------------------------------ configuration */
 static int sched_kind = 0;          /* 0 never, 1 always, 2 probability 1/den */
@@ -41,9 +42,15 @@ static int opt_graph = 0, opt_crit = 0, opt_sweepcheck = 1;
 static FILE *report = NULL;
 static const char *dump_path = NULL;
 static long dump_every = 1, dump_off = 0, dump_max = 0, dumps_done = 0;
-static long n_collect = 0, n_forced = 0, n_safepoints = 0, n_checked = 0, max_nodes = 0, n_findings = 0, n_opaque_coll = 0;
+static __thread long n_collect = 0;      /* per VM (= per thread) */
+static long n_forced = 0, n_safepoints = 0, n_checked = 0, max_nodes = 0, n_findings = 0, n_opaque_coll = 0;
+/* worker threads (ev/thread, ev/do-thread): each has its own VM and heap.  The same schedule is applied to their safepoints
+ * (own PRNG stream) and the same graph oracle runs at their collections; the oracle's tables are shared, so the midpoint
+ * hook is serialised by a mutex.  Counters of worker collections are kept apart. */
+static long w_collect = 0, w_forced = 0, w_safepoints = 0, w_checked = 0, w_findings = 0, w_threads = 0;
 static long n_envmode = 0, n_pending_streams = 0;
 static long tot_nodes = 0, tot_edges = 0, tot_freed = 0, tot_weak_cleared = 0;
+static long sym_probes = 0, sym_wrapped = 0, sym_through_tomb = 0, sym_last_freed = 0, sym_last_freed_chain = 0, sym_freed = 0, sym_cap_max = 0, sym_count_max = 0, sym_skipped = 0;
 
 static uint64_t sm64(void) {
     uint64_t z = (rng_state += 0x9E3779B97F4A7C15ULL);
@@ -54,8 +61,31 @@ static uint64_t sm64(void) {
 
 #include <pthread.h>
 static pthread_t main_thread;
+static pthread_mutex_t hook_mu = PTHREAD_MUTEX_INITIALIZER;
+static int opt_workers = 1;           /* C01_WORKERS=0: worker threads keep the default schedule and are not checked */
+static __thread uint64_t w_rng = 0;
+static __thread int w_known = 0;
+static uint64_t w_sm64(void) {
+    uint64_t z = (w_rng += 0x9E3779B97F4A7C15ULL);
+    z = (z ^ (z >> 30)) * 0xBF58476D1CE4E5B9ULL;
+    z = (z ^ (z >> 27)) * 0x94D049BB133111EBULL;
+    return z ^ (z >> 31);
+}
 static int safepoint_hook(void) {
-    if (!pthread_equal(pthread_self(), main_thread)) return 0; /* worker threads (ev/thread): own VM, default schedule */
+    if (!pthread_equal(pthread_self(), main_thread)) {
+        if (!opt_workers) return 0;
+        if (!w_known) {
+            w_known = 1;
+            long ord = __atomic_add_fetch(&w_threads, 1, __ATOMIC_RELAXED);
+            w_rng = rng_state * 0x2545F4914F6CDD1DULL + (uint64_t) ord;
+        }
+        __atomic_add_fetch(&w_safepoints, 1, __ATOMIC_RELAXED);
+        int r = 0;
+        if (sched_kind == 1) r = 1;
+        else if (sched_kind == 2) r = (w_sm64() % sched_den) == 0;
+        if (r && !janet_vm.gc_suspend) __atomic_add_fetch(&w_forced, 1, __ATOMIC_RELAXED);
+        return r;
+    }
     n_safepoints++;
     int r = 0;
     if (sched_kind == 1) r = 1;
@@ -526,6 +556,33 @@ static void dump_weak_slots(const char *tag, size_t i) {
     }
 }
 
+/* `sc` / `sca` line: the symbol cache before / after the real sweep, for the model's sweepCache (GC/SymSweep.lean):
+ *   <tag> <capacity> <cache_count> <cache_deleted> then one token per non-NULL bucket: <bucket>:D (tombstone) or
+ *   <bucket>:<node id in this snapshot>:<bytes in hex>   (node id = position on the block list = order of the sweep) */
+static int sym_dump_wanted(void) {
+    for (size_t i = 0; i < nnodes; i++)
+        if (nodes[i].kind == JANET_MEMORY_SYMBOL && !nodes[i].threaded && !nodes[i].marked && !nodes[i].disabled) return 1;
+    return 0;
+}
+static void dump_symcache(const char *tag) {
+    const uint8_t *tomb = c01_sym_deleted();
+    fprintf(dumpf, "%s %u %u %u", tag, janet_vm.cache_capacity, janet_vm.cache_count, janet_vm.cache_deleted);
+    for (uint32_t i = 0; janet_vm.cache && i < janet_vm.cache_capacity; i++) {
+        const uint8_t *e = janet_vm.cache[i];
+        if (!e) continue;
+        if (e == tomb) { fprintf(dumpf, " %u:D", i); continue; }
+        int32_t j = node_find(&janet_string_head(e)->gc);
+        fprintf(dumpf, " %u:%ld:", i, j < 0 ? (long) nnodes : (long) j);
+        if (j >= 0 && (tag[2] != 'a' || nodes[j].reach == 2)) {      /* after the sweep: never read a freed block */
+            JanetStringHead *h = janet_string_head(e);
+            for (int32_t k = 0; k < h->length; k++) fprintf(dumpf, "%02x", h->data[k]);
+            if (!h->length) fputc('-', dumpf);
+        } else fputc('?', dumpf);
+    }
+    fputc('\n', dumpf);
+}
+static int sym_dumped = 0;
+
 static void dump_graph(void) {
     dumpf = fopen(dump_path, "a");
     if (!dumpf) return;
@@ -577,6 +634,9 @@ static void dump_graph(void) {
     fprintf(dumpf, "\n");
     /* slot arrays of the weak blocks the first pass of janet_sweep will look at (REACHABLE | DISABLED), before the sweep */
     for (size_t i = 0; i < nnodes; i++) if (nodes[i].marked || nodes[i].disabled) dump_weak_slots("w", i);
+    /* the symbol cache, when this sweep is going to free at least one symbol */
+    sym_dumped = sym_dump_wanted();
+    if (sym_dumped) dump_symcache("sc");
 }
 
 /* ------------------------------------------------------------------ the midpoint oracle */
@@ -591,10 +651,122 @@ static void weak_residual_edge(void *u, JanetGCObject *blk, int cls, const char 
     }
 }
 
+/* ------------------------------------------------------------------ symbol cache after the sweep
+ * Freeing a symbol/keyword block has a side effect outside the heap graph: janet_symbol_deinit removes it from the
+ * interning cache (symcache.c).  "Collection is transparent" includes that side effect: after the sweep
+ *   (a) every cache entry is NULL, the tombstone, or the payload of a SURVIVING symbol block (no pointer to freed memory),
+ *   (b) cache_count == number of such entries == number of surviving symbol blocks,
+ *   (c) every surviving symbol is found from its bytes by the probe sequence janet_symcache_findmem follows
+ *       (start at hash & (capacity-1), step +1, wrap from the last bucket to bucket 0, stop at the first NULL, step over
+ *       tombstones), and no OTHER entry with the same bytes precedes it - otherwise the next (keyword name) / parse of that
+ *       name interns a second object and identity of a reachable keyword depends on the collection schedule.
+ * The probe below is written from that description; it does not call symcache.c (whose lookup also MOVES entries). */
+static const uint8_t *sym_pre_last = NULL;   /* entry of the last bucket before the sweep */
+static uint32_t sym_pre_cap = 0;
+
+static void symcache_presweep(void) {
+    sym_pre_cap = janet_vm.cache_capacity;
+    sym_pre_last = (janet_vm.cache && sym_pre_cap) ? janet_vm.cache[sym_pre_cap - 1] : NULL;
+}
+
+static void symcache_check(void) {
+    const uint8_t **cache = janet_vm.cache;
+    uint32_t cap = janet_vm.cache_capacity;
+    const uint8_t *tomb = c01_sym_deleted();
+    if (!cache || !cap) return;
+    if (cap & (cap - 1)) { n_findings++; rep("FINDING symcache-capacity-not-power-of-two collection=%ld capacity=%u\n", n_collect, cap); return; }
+    long live = 0, tombs = 0, bad = 0;
+    /* the sweep touches the cache only through janet_symbol_deinit of a freed symbol: nothing to re-verify when it freed none
+     * and the counters are what they were after the previous verification */
+    {
+        static __thread uint32_t last_cap = 0, last_count = 0, last_deleted = 0;
+        long freed_syms = 0;
+        for (size_t k = 0; k < nnodes; k++)
+            if (nodes[k].kind == JANET_MEMORY_SYMBOL && !nodes[k].threaded && nodes[k].reach != 2) freed_syms++;
+        int unchanged = last_cap == cap && last_count == janet_vm.cache_count && last_deleted == janet_vm.cache_deleted;
+        last_cap = cap; last_count = janet_vm.cache_count; last_deleted = janet_vm.cache_deleted;
+        if (!freed_syms && unchanged) { sym_skipped++; return; }
+    }
+    if ((long) cap > sym_cap_max) sym_cap_max = (long) cap;
+    if ((long) janet_vm.cache_count > sym_count_max) sym_count_max = (long) janet_vm.cache_count;
+    for (uint32_t i = 0; i < cap; i++) {
+        const uint8_t *e = cache[i];
+        if (!e) continue;
+        if (e == tomb) { tombs++; continue; }
+        live++;
+        int32_t j = node_find(&janet_string_head(e)->gc);
+        if (j < 0 || nodes[j].reach != 2 || nodes[j].kind != JANET_MEMORY_SYMBOL) {
+            n_findings++;
+            if (++bad <= 5) rep("FINDING symcache-entry-points-to-freed-block collection=%ld bucket=%u capacity=%u\n", n_collect, i, cap);
+        }
+    }
+    if ((long) janet_vm.cache_count != live) {
+        n_findings++;
+        rep("FINDING symcache-count-mismatch collection=%ld cache_count=%u live-entries=%ld\n", n_collect, janet_vm.cache_count, live);
+    }
+    if (tombs > (long) janet_vm.cache_deleted) {
+        n_findings++;
+        rep("FINDING symcache-deleted-undercount collection=%ld cache_deleted=%u tombstones=%ld\n", n_collect, janet_vm.cache_deleted, tombs);
+    }
+    /* was the symbol in the LAST bucket freed by this sweep (the probe sequences that wrap run through it)? */
+    int last_freed = 0;
+    if (sym_pre_cap == cap && sym_pre_last && sym_pre_last != tomb) {
+        int32_t j = node_find(&janet_string_head(sym_pre_last)->gc);
+        if (j >= 0 && nodes[j].reach != 2) { last_freed = 1; sym_last_freed++; }
+    }
+    long nsym = 0, unfound = 0, chain_last = 0;
+    for (size_t k = 0; k < nnodes; k++) {
+        Node *n = &nodes[k];
+        if (n->kind != JANET_MEMORY_SYMBOL || n->threaded) continue;
+        if (n->reach != 2) { sym_freed++; continue; }
+        JanetStringHead *h = (JanetStringHead *) n->p;
+        const uint8_t *me = h->data;
+        uint32_t home = (uint32_t) h->hash & (cap - 1);
+        int found = 0, wrapped = 0, tomb_seen = 0;
+        nsym++;
+        sym_probes++;
+        for (uint32_t step = 0, i = home; step < cap; step++, i = (i + 1 == cap) ? 0 : i + 1) {
+            const uint8_t *e = cache[i];
+            if (step && i == 0) wrapped = 1;
+            if (!e) break;
+            if (e == tomb) { tomb_seen = 1; continue; }
+            if (e == me) { found = 1; break; }
+            int32_t oj = node_find(&janet_string_head(e)->gc);
+            if (oj < 0 || nodes[oj].reach != 2) continue;             /* entry points to freed memory (reported above): do not read it */
+            JanetStringHead *o = janet_string_head(e);
+            if (o->length == h->length && o->hash == h->hash && !memcmp(o->data, me, (size_t) h->length)) { found = 2; break; }
+        }
+        if (wrapped) { sym_wrapped++; if (found == 1) chain_last++; }
+        if (tomb_seen) sym_through_tomb++;
+        if (found != 1) {
+            n_findings++;
+            if (++unfound <= 5)
+                rep("FINDING symcache-live-symbol-%s collection=%ld symbol=\"%.*s\" home-bucket=%u capacity=%u reachable=%d\n",
+                    found ? "shadowed-by-duplicate" : "not-findable", n_collect, h->length > 48 ? 48 : h->length, me, home, cap, (int) n->marked);
+        }
+    }
+    if (last_freed && (chain_last || unfound)) sym_last_freed_chain++;
+    if (nsym != live && !bad) {
+        n_findings++;
+        rep("FINDING symcache-entries-vs-symbol-blocks collection=%ld live-entries=%ld surviving-symbol-blocks=%ld\n", n_collect, live, nsym);
+    }
+}
+
+static void midpoint_body(int worker);
 static void midpoint_hook(void) {
-    if (!pthread_equal(pthread_self(), main_thread)) return;
+    int worker = !pthread_equal(pthread_self(), main_thread);
+    if (worker && !opt_workers) return;
     n_collect++;
+    if (worker) __atomic_add_fetch(&w_collect, 1, __ATOMIC_RELAXED);
     if (!opt_graph) return;
+    pthread_mutex_lock(&hook_mu);
+    long f0 = n_findings;
+    midpoint_body(worker);
+    if (worker) { w_checked++; w_findings += n_findings - f0; }
+    pthread_mutex_unlock(&hook_mu);
+}
+
+static void midpoint_body(int worker) {
     /* 1. snapshot the block lists */
     nnodes = 0;
     for (JanetGCObject *b = janet_vm.blocks; b; b = b->data.next) node_add(b, 0, 0);
@@ -696,13 +868,13 @@ static void midpoint_hook(void) {
         }
     }
     if (opaque) n_opaque_coll++;
-    n_checked++;
+    if (!worker) n_checked++;
     /* 4. dump for the model */
-    if (dump_path && dumps_done < dump_max && dump_every > 0 && (n_collect % dump_every) == dump_off % dump_every) {
+    if (!worker && dump_path && dumps_done < dump_max && dump_every > 0 && (n_collect % dump_every) == dump_off % dump_every) {
         dump_graph();
     }
     /* 5. criticality of edge labels (catalogue validation) */
-    if (opt_crit) {
+    if (opt_crit && !worker) {
         int nl = nlabels;
         for (int l = 0; l < nl; l++) {
             skip_label = labels[l];
@@ -724,6 +896,7 @@ static void midpoint_hook(void) {
      * janet_sweep() again right after this hook returns; to make that second sweep a no-op every survivor is
      * re-marked here (and every surviving threaded abstract flagged visited). */
     if (opt_sweepcheck) {
+        symcache_presweep();
         janet_sweep();
         long survivors = 0, bad = 0, weakbad = 0;
         for (int pass = 0; pass < 2; pass++)
@@ -800,6 +973,7 @@ static void midpoint_hook(void) {
             }
         }
         (void) survivors;
+        symcache_check();
         /* make the second sweep a no-op */
         for (JanetGCObject *b = janet_vm.blocks; b; b = b->data.next) b->flags |= JANET_MEM_REACHABLE;
         for (JanetGCObject *b = janet_vm.weak_blocks; b; b = b->data.next) b->flags |= JANET_MEM_REACHABLE;
@@ -814,6 +988,8 @@ static void midpoint_hook(void) {
         /* the weak blocks' slot arrays after the REAL sweep */
         if (opt_sweepcheck)
             for (size_t i = 0; i < nnodes; i++) if (nodes[i].reach == 2 && !nodes[i].threaded) dump_weak_slots("wa", i);
+        if (opt_sweepcheck && sym_dumped) dump_symcache("sca");
+        sym_dumped = 0;
         /* survivors after the real sweep, as ids of the pre-sweep snapshot */
         fprintf(dumpf, "after");
         if (opt_sweepcheck)
@@ -827,8 +1003,12 @@ static void midpoint_hook(void) {
 
 static void at_exit_report(void) {
     if (!report) return;
-    fprintf(report, "SUMMARY collections=%ld forced=%ld safepoints=%ld checked=%ld max_nodes=%ld nodes=%ld edges=%ld freed=%ld findings=%ld opaque_collections=%ld dumps=%ld pending_streams=%ld\n",
-            n_collect, n_forced, n_safepoints, n_checked, max_nodes, tot_nodes, tot_edges, tot_freed, n_findings, n_opaque_coll, dumps_done, n_pending_streams);
+    fprintf(report, "SUMMARY collections=%ld forced=%ld safepoints=%ld checked=%ld max_nodes=%ld nodes=%ld edges=%ld freed=%ld findings=%ld opaque_collections=%ld dumps=%ld pending_streams=%ld"
+            " sym_probes=%ld sym_wrapped=%ld sym_through_tomb=%ld sym_freed=%ld sym_last_freed=%ld sym_last_freed_chain=%ld sym_cap_max=%ld sym_count_max=%ld sym_skipped=%ld"
+            " worker_threads=%ld worker_safepoints=%ld worker_forced=%ld worker_collections=%ld worker_checked=%ld worker_findings=%ld\n",
+            n_collect, n_forced, n_safepoints, n_checked, max_nodes, tot_nodes, tot_edges, tot_freed, n_findings, n_opaque_coll, dumps_done, n_pending_streams,
+            sym_probes, sym_wrapped, sym_through_tomb, sym_freed, sym_last_freed, sym_last_freed_chain, sym_cap_max, sym_count_max, sym_skipped,
+            w_threads, w_safepoints, w_forced, w_collect, w_checked, w_findings);
     fprintf(report, "LABELS");
     for (int l = 0; l < nlabels; l++) fprintf(report, " %s=%ld/%ld", labels[l], label_edges[l], label_crit_max[l]);
     fprintf(report, "\n");
@@ -845,6 +1025,7 @@ int main(int argc, char **argv) {
     if ((s = getenv("C01_GRAPH"))) opt_graph = atoi(s);
     if ((s = getenv("C01_CRIT"))) opt_crit = atoi(s);
     if ((s = getenv("C01_SWEEPCHECK"))) opt_sweepcheck = atoi(s);
+    if ((s = getenv("C01_WORKERS"))) opt_workers = atoi(s);
     if ((s = getenv("C01_REPORT"))) report = fopen(s, "a");
     if ((s = getenv("C01_DUMP"))) dump_path = s;
     if ((s = getenv("C01_DUMP_EVERY"))) dump_every = atol(s);
